@@ -16,7 +16,8 @@ LEVELS = {
     "C01": dict(category="other",
                 text="Mixed. PROVED unbounded (T1, loop invariants over an abstract Binner contract, any number of items/bins, opaque items): greedy and round-robin return exactly numbins bins holding every item exactly once. "
                      "PROVED for all values at bounded shape (T2, the real search code on every path): complete greedy x 3 objectives (n<=4, k<=3), CKK (n<=4), DP x 3 objectives (n<=3), CBLDM (n<=4) return a non-missing result that is a partition into the requested number of bins. "
-                     "BOUNDED STAND-IN only (T3): multifit, kk, snp, rnp, ilp, complete greedy under all 16 switch combinations, larger shapes. rnp with 6-8 bins is a listed known finding.",
+                     "kk and multifit (2 iterations) at n<=3 (T2); complete greedy under all 16 switch combinations x 3 objectives at n<=4 in the thorough tier (5 combinations in quick). "
+                     "BOUNDED STAND-IN only (T3): snp, rnp, ilp (its copies clause is T2 under C17), larger shapes. rnp with 6-8 bins is a listed known finding.",
                 technique=_T1 + " + " + _T2 + " + " + _T3),
     "C02": dict(category="other",
                 text="Optimality of branch-and-bound searches is not decided for unbounded inputs by anything within reach. PROVED for all integer values at bounded shape (T2): on every path of the real search, the returned objective value is <= that of every one of the k^n assignments, for complete greedy x {difference, min-max, max-min} (default switches, n<=4, k<=3), CKK (n<=4, k<=3), DP x 3 objectives (n<=3, k<=2); "
@@ -25,10 +26,11 @@ LEVELS = {
                 technique=_T2 + " + " + _T3),
     "C03": dict(category="proof",
                 text="PROVED unbounded (T1) for first-fit, first-fit-decreasing, best-fit, best-fit-decreasing: for any number of items, any real bin size and values (integers and fractions alike), any arrival order, opaque items, the loop invariants give: every sum <= binsize, every item exactly once, no empty bin for a non-empty input, sums equal the totals of the recorded contents (so the bin count is the number of bins); decreasing variants are verified against online's contract (modular). "
-                     "Bin-completion (recursive search over Python lists with itertools) is outside the T1 fragment: BOUNDED STAND-IN (T3) only, named as such in the evidence.",
+                     "Bin-completion: PROVED at bounded shape (T2): the whole search for n<=3 (4) symbolic integer items, and - modular, independent of the number of items packed - its helpers: "
+                     "list_without_items is multiset difference (lists <=5), every completion returned by find_bin_completions is a sub-multiset of the items that fits (n<=3). Beyond: BOUNDED STAND-IN (T3).",
                 technique=_T1 + "; bin-completion: " + _T3),
     "C04": dict(category="exploration",
-                text="Minimality of a branch-and-bound packer with dominance pruning is not decidable deductively here. Deductive part: purity of every function of bin_completion*.py (static, all paths) so that a per-call contract is meaningful. The deciding check is a BOUNDED STAND-IN (T3): the contract nb(result) = OPT_bins (exhaustive oracle), <= FFD, <= BFD, same count for Partition/Sums/BinCount, over a bounded-exhaustive domain.",
+                text="Minimality of a branch-and-bound packer with dominance pruning is not decidable deductively here for unbounded inputs. Deductive parts: the lemmas the pruning rests on, PROVED at bounded shape (T2): is_dominant(l1,l2) <=> l2 fits into bins of sizes l1 (lists <=3; the obligation defect F8 broke), every feasible subset is dominated by a completion that find_bin_completions returns (n<=3); the whole search uses no more bins than any of the Bell(n) set partitions for n<=3 (4); purity of bin_completion*.py (static). The deciding check for larger inputs is a BOUNDED STAND-IN (T3): the contract nb(result) = OPT_bins (exhaustive oracle), <= FFD, <= BFD, same count for Partition/Sums/BinCount, over a bounded-exhaustive domain.",
                 technique=_T3 + " + static purity judgement"),
     "C05": dict(category="proof",
                 text="PROVED unbounded (T1) for the decreasing cover (modular: decreasing_subroutine's contract) and the two-thirds cover: every returned bin >= binsize, bins + dropped last bin = exactly the input multiset (each item used at most once), the dropped bin's total < binsize, inputs too small give zero bins; for any number of opaque items (list and dict alike). "
@@ -36,7 +38,7 @@ LEVELS = {
                 technique=_T1 + " + " + _T2),
     "C06": dict(category="proof",
                 text="(a) each reported sum equals the total of its bin: wf is proved as class invariant of both managers (T2: every operation from an arbitrary well-formed state of every shape <=3 bins/<=2 items per bin, frame and separation included) and as postcondition of every T1/T2-verified algorithm, which touch bins only through the Binner contracts. "
-                     "(b) a cheaper output type never changes the answer: PROVED at bounded shape (T2, n<=3..4) for ten heuristics by executing the real function with both managers and comparing sums. Exact algorithms, ckk/snp/rnp, extractors: BOUNDED STAND-IN (T3, every output type in prtpy.out).",
+                     "(b) a cheaper output type never changes the answer: PROVED at bounded shape (T2, n<=3..4) for ten heuristics by executing the real function with both managers and comparing sums. (c) bins-arrays are used only through the manager interface (static, every algorithm); seven sums-based output types through the real adaptor equal their definition on the full output (T2, 5 algorithms, n<=3). Exact algorithms at larger shapes, ckk/snp/rnp: BOUNDED STAND-IN (T3, every output type in prtpy.out).",
                 technique=_T1 + " + " + _T2 + " + " + _T3),
     "C07": dict(category="other",
                 text="PROVED on every path of every T1/T2-verified function: items are an uninterpreted sort and only binner.valueof looks inside them; arithmetic or numeric comparison on an item is an obligation failure (opacity), ordering items among themselves is modelled by an arbitrary rank unrelated to the values, so any dependence on it fails the value-level postconditions. Together with parametricity (A7) this gives presentation independence for those functions. "
@@ -60,7 +62,7 @@ LEVELS = {
                 technique=_T2 + " + " + _T3),
     "C13": dict(category="proof",
                 text="PROVED for every numbins<=6 (7 thorough), ALL sorted integer sum vectors, ALL remaining totals and EVERY integer completion (T2, quantifier-free LIA after unrolling the real loop): each lower bound <= the objective of the completion and is independent of the sorted-flag (difference bound: modular, from the two callee contracts). "
-                     "Inclusion/exclusion enumerator and bin-combination enumerator: PROVED at bounded shape (T2, n<=4 items / <=3 bins) when the corresponding contracts are listed in the evidence, otherwise BOUNDED STAND-IN (T3).",
+                     "Inclusion/exclusion enumerator: PROVED for n<=4 (5) items with arbitrary non-negative real values (zeros, repeats) and an arbitrary window: exactly the sub-collections within the window, each once. all_combinations of both managers: PROVED for <=3 bins: every pairing, each distinct one once, nothing else. Larger shapes (5 bins): BOUNDED STAND-IN (T3).",
                 technique=_T2 + " + " + _T3),
     "C14": dict(category="proof",
                 text="PROVED unbounded (T1): at every placement the chosen bin satisfies the textbook rule as a relation on the state at that moment - greedy: a least-loaded bin, items in non-increasing value order; round-robin: cyclic dealing; first-fit: the first bin that fits, a new bin only when none fits; best-fit: the fullest bin that fits, first among ties; decreasing cover: always the open last bin; two-thirds: one largest then smallest until covered. "
@@ -72,14 +74,15 @@ LEVELS = {
     "C16": dict(category="proof",
                 text="PROVED for all item values at bounded shape (T2): every documented operation of both managers, executed from an ARBITRARY well-formed state of every shape up to 3 (4) bins and 2 items per bin next to a second live array, keeps sums = totals of contents, has exactly its documented effect, writes nothing reachable from an argument documented as unmodified, leaves the other live array untouched and shares no buffer / outer list / inner list; copies are independent in both directions (checked by mutating one and looking at the other). All histories follow by induction over operations (A7).",
                 technique=_T2 + " on a heap model with object identities and numpy views"),
-    "C17": dict(category="exploration",
-                text="BOUNDED STAND-IN (T3): the ILP contract (copies honoured, sums ascending / weighted order, caller constraints, optimality among admissible partitions, ValueError on non-optimal status) is evaluated on real CBC over a bounded domain with a run-time monitor of the assumed solver contract; deductive T2 obligations under a symbolic solver contract are listed in the evidence when present.",
-                technique=_T3 + " with a solver-contract monitor"),
+    "C17": dict(category="other",
+                text="PROVED for all integer values and positive weights at bounded shape (T2, n<=2 (3) items, <=3 bins, copies 1 / 2 / per-item, three objectives, three caller-constraint forms) UNDER THE ASSUMED CONTRACT of the MIP solver (A3: status OPTIMAL => the unknowns satisfy every constraint the real code built and minimise its objective): every item placed exactly copies times, ValueError exactly when the status is not OPTIMAL, bins in non-decreasing order of (weighted) sum with bin i divided by weight i, caller constraints hold in the result, the objective of the RESULT is <= that of every admissible alternative; a solver option that relaxes optimality voids the clause. "
+                     "What the real CBC does (A3 itself) is only a BOUNDED STAND-IN (T3) with a run-time monitor of that contract; K4 is a listed known finding of the dependency.",
+                technique=_T2 + " under an assumed solver contract + " + _T3 + " with a solver-contract monitor"),
     "C18": dict(category="other",
                 text="PROVED for all values at bounded shape (T2, relational: two symbolic executions of the real function): scaling values (and bin size) by 2 and 7 scales the sums, and reordering the input keeps the multiset of sums, for greedy, round-robin, kk, ff, ffd, bf, bfd and the three covers (n<=3 quick / 4 thorough); the pruning bounds the exact algorithms share are admissible (T2). Exact-algorithm symmetries and agreement on 11-16 items rest on C02: BOUNDED STAND-IN (T3).",
                 technique=_T2 + " (relational) + " + _T3),
     "C19": dict(category="proof",
-                text="PROVED unbounded (T1) for the four fit heuristics: a returned packing implies no oversize item, and the only exception that can be raised is ValueError and only when an oversize item exists, at any position and multiplicity, for opaque items (every input format); the sums-only manager's numitems raises NotImplementedError (T2). CBLDM's argument checks and bin-completion's scan: BOUNDED STAND-IN (T3).",
+                text="PROVED unbounded (T1) for the four fit heuristics: a returned packing implies no oversize item, and the only exception that can be raised is ValueError and only when an oversize item exists, at any position and multiplicity, for opaque items (every input format); the sums-only manager's numitems raises NotImplementedError (T2). CBLDM with symbolic numbins / time_limit / partition_difference (integer, non-integral, default) and possibly negative items raises ValueError exactly for the malformed requests (T2, n<=2/3); bin-completion raises ValueError exactly when an item exceeds the bin size (T2, n<=3/4). T3 stand-ins run besides.",
                 technique=_T1 + " + " + _T3),
     "C20": dict(category="proof",
                 text="PROVED for every vector length <=5 (7 thorough), list / tuple / ndarray, k up to 6 (8) including k > n, ALL non-negative integer sums and ALL positive weights (T2): each of the six objectives returns its documented quantity, and the fast path for sums declared sorted returns the same value whenever they are sorted. Longer vectors: BOUNDED STAND-IN (T3).",
